@@ -364,7 +364,7 @@ func c08(c *Ctx) {
 				data = data[:c.Rnd.Intn(len(data)+1)]
 			}
 			st, _, line := c08Scan(scanPath, data)
-			c.Op("file "+hex.EncodeToString(data), fmt.Sprintf("len %d", len(data)))
+			c.Op("file "+hexOrDash(data), fmt.Sprintf("len %d", len(data)))
 			c.Op(fmt.Sprintf("scan %d 0", len(data)), line)
 			c.Count("malformed:" + st)
 		}
